@@ -32,10 +32,10 @@ def one(name):
         m = re.match(r"check (C\d+) (\w+): exit=(\d+) (\d+) violation line\(s\) ?(.*)", l)
         if m: checks[m.group(1)] = {"tier": m.group(2), "exit": int(m.group(3)), "violation_lines": int(m.group(4)), "classes": [c for c in m.group(5).split(";") if c.strip()]}
     prop = old["breaks_property"]
-    rnd = "r2" if name.startswith("R2-") else "r1"
+    rnd = "r3" if name.startswith("R3-") else "r2" if name.startswith("R2-") else "r1"
     h = hist.get(rnd, {}).get(prop, ["", ""])
     meta = {
-        "name": name, "round": 2 if rnd == "r2" else 1, "breaks_property": prop, "summary": old["summary"], "needs_to_manifest": old["needs_to_manifest"],
+        "name": name, "round": int(rnd[1]), "breaks_property": prop, "summary": old["summary"], "needs_to_manifest": old["needs_to_manifest"],
         "origin": old["origin"], "confirmed_by_me": conf,
         "what_i_ran": "tools/finalize_seeds.py -> tools/eval_seeded.sh <this dir> <result dir> all  (scratch copy of /repo + patch: demo.sh on the changed and on the unchanged tree, tools/run_repo_tests.sh on the changed tree, every check's quick tier with VERIF_REPO pointing at the copy); the official procedure (git -C /repo apply, run, git -C /repo checkout -- .) gives the same builds because the harness is built from a content hash of the tree",
         "checks_quick_tier": checks,
